@@ -388,7 +388,22 @@ func cacheType() typeDef {
 // ---------------------------------------------------------------------------
 // safety-only types: every public method, including the multi-element ones
 
-type heapPair struct{ h, o *heap.Heap[int] }
+// heapPair: two heaps plus the bookkeeping of a conservation law that holds whatever the interleaving: every element is
+// in exactly one place. (Only one virtual thread runs at a time, so plain counters suffice.)
+type heapPair struct {
+	h, o    *heap.Heap[int]
+	melded  []*heap.Heap[int] // results of Meld: they took the elements over
+	in, out int               // elements put in (initial + pushed) / taken out (successful Pop, Delete)
+	cleared bool              // a Clear ran: the law is not evaluated
+}
+
+func (p *heapPair) pop(h *heap.Heap[int]) string {
+	v := h.Pop()
+	if v != 0 {
+		p.out++
+	}
+	return s(v)
+}
 
 func heap2Type() typeDef {
 	type P = *heapPair
@@ -413,33 +428,60 @@ func heap2Type() typeDef {
 			case 1:
 				p.h.Push(1)
 				p.o.Push(2)
+				p.in = 2
 			case 2:
 				p.h.Push(2, 1, 3)
 				p.o.Push(5, 4)
+				p.in = 5
 			}
 			return p
 		},
 		Ops: []opDef{
-			{"Push(1)", func(i any) string { i.(P).h.Push(1); return "" }},
-			{"Push(2,3)", func(i any) string { i.(P).h.Push(2, 3); return "" }},
-			{"Pop", func(i any) string { return s(i.(P).h.Pop()) }},
+			{"Push(1)", func(i any) string { i.(P).in++; i.(P).h.Push(1); return "" }},
+			{"Push(2,3)", func(i any) string { i.(P).in += 2; i.(P).h.Push(2, 3); return "" }},
+			{"Pop", func(i any) string { return i.(P).pop(i.(P).h) }},
 			{"Peek", func(i any) string { return s(i.(P).h.Peek()) }},
 			{"Size", func(i any) string { return s(i.(P).h.Size()) }},
 			{"IsEmpty", func(i any) string { return s(i.(P).h.IsEmpty()) }},
-			{"Clear", func(i any) string { i.(P).h.Clear(); return "" }},
-			{"Delete(1)", func(i any) string { ok, err := i.(P).h.Delete(1); return s(ok, err != nil) }},
+			{"Clear", func(i any) string { i.(P).cleared = true; i.(P).h.Clear(); return "" }},
+			{"Delete(1)", func(i any) string {
+				ok, err := i.(P).h.Delete(1)
+				if ok {
+					i.(P).out++
+				}
+				return s(ok, err != nil)
+			}},
 			{"GetValues+read", func(i any) string { return sum(i.(P).h) }},
 			{"Convert(>)", func(i any) string { i.(P).h.Convert(more); return "" }},
 			{"Merge(o)", func(i any) string { return sum(i.(P).h.Merge(i.(P).o)) }},
 			{"o.Merge(h)", func(i any) string { return sum(i.(P).o.Merge(i.(P).h)) }},
 			{"Merge(h)", func(i any) string { return sum(i.(P).h.Merge(i.(P).h)) }},
-			{"Meld(o)", func(i any) string { return sum(i.(P).h.Meld(i.(P).o)) }},
-			{"o.Meld(h)", func(i any) string { return sum(i.(P).o.Meld(i.(P).h)) }},
-			{"o.Push(1)", func(i any) string { i.(P).o.Push(1); return "" }},
-			{"o.Pop", func(i any) string { return s(i.(P).o.Pop()) }},
+			{"Meld(o)", func(i any) string {
+				m := i.(P).h.Meld(i.(P).o)
+				i.(P).melded = append(i.(P).melded, m)
+				return sum(m)
+			}},
+			{"o.Meld(h)", func(i any) string {
+				m := i.(P).o.Meld(i.(P).h)
+				i.(P).melded = append(i.(P).melded, m)
+				return sum(m)
+			}},
+			{"o.Push(1)", func(i any) string { i.(P).in++; i.(P).o.Push(1); return "" }},
+			{"o.Pop", func(i any) string { return i.(P).pop(i.(P).o) }},
 		},
 		Observe: func(i any) string {
 			out := ""
+			if p := i.(P); !p.cleared {
+				total := p.h.Size() + p.o.Size()
+				for _, m := range p.melded {
+					if m != nil {
+						total += m.Size()
+					}
+				}
+				if want := p.in - p.out; total != want {
+					return fmt.Sprintf("CONSERVATION VIOLATED: %d elements were put in and %d taken out, but the two heaps and the %d melded heaps hold %d (an element was lost or duplicated)", p.in, p.out, len(p.melded), total)
+				}
+			}
 			for _, h := range []*heap.Heap[int]{i.(P).h, i.(P).o} {
 				out += s("size=", h.Size(), " drain=")
 				for k := 0; k < 40 && h.Size() > 0; k++ {
@@ -711,6 +753,9 @@ func judge(c Case, seq []seqRun, cr concRun) error {
 		}
 		if strings.HasPrefix(cr.observed, "PANIC: ") {
 			return fmt.Errorf("%v: the instance is unusable after schedule %v: %s%s", c, cr.res.Choices, cr.observed, describe())
+		}
+		if strings.HasPrefix(cr.observed, "CONSERVATION VIOLATED") {
+			return fmt.Errorf("%v: under schedule %v: %s%s", c, cr.res.Choices, cr.observed, describe())
 		}
 		return nil
 	}
@@ -1045,7 +1090,7 @@ func TestProp(t *testing.T) {
 				Name: "controlled",
 				Rule: "controlled scheduler (same shim and explorer as C02) over ALL public methods of heap (two instances: variadic Push, GetValues, Convert, Merge/Meld in both directions and with itself), trie (also Keys, StartsWith, LongestPrefix with the shared result queue drained) and cache (also List, MapToCache, Flush, SetDefault; an initial state with an expired entry): " +
 					"every program of 2 threads x 1 call (scheduling points also after unlocks), 3 threads x 1 call (quick: a seeded 1-in-4 sample) and the 4-thread cross-merge programs (h.Merge(o) || o.Merge(h) || h.Push || o.Push and the Meld variants) from 3-4 initial states; every schedule depth-first up to a cap, then uniformly sampled schedules. " +
-					"Oracle: no deadlock, no livelock (> 4000 steps), no call that panics although it does not panic in any one-at-a-time order, instance usable afterwards. (bstree.Traverse and the cache cleanup start goroutines of their own and stay with the free-running part.) " +
+					"Oracle: no deadlock, no livelock (> 4000 steps), no call that panics although it does not panic in any one-at-a-time order, instance usable afterwards, and for the heaps conservation: unless a Clear ran, the two heaps and the heaps returned by Meld together hold exactly what was put in minus what Pop/Delete took out. (bstree.Traverse and the cache cleanup start goroutines of their own and stay with the free-running part.) " +
 					"evaluations = schedules executed; non-trivial = two calls in progress at the same time; distinct = distinct (program, outcome vector) pairs among those.",
 				Body: bodyFor(safetyPlan), Replay: replay,
 			},
